@@ -362,6 +362,15 @@ def DefaultsLexed (vdefs : List VarDef) : Prop :=
 def DefaultsSupplied (vdefs : List VarDef) (vars : VarMap) : Prop :=
   ∀ n d, findVarDef vdefs n = some d → d.default.isSome = true → vars.contains n = true
 
+/-- C15, the hypothesis about variable links.  `Value.VariableDefinition` of a variable used inside
+    a FRAGMENT is set by the walker to the definition of the LAST operation walked that spreads the
+    fragment (`linked`), which need not be the operation being executed (`opDefs`).  The links
+    agree with the operation when every variable has the same default in both — in particular in
+    a document with a single operation, or when no other operation that spreads the same fragment
+    declares a variable of the same name with a different default. -/
+def LinksAgree (linked opDefs : List VarDef) : Prop :=
+  ∀ n, (findVarDef linked n).bind (·.default) = (findVarDef opDefs n).bind (·.default)
+
 /-- a constant literal (defaults): variables do not occur -/
 def constSpec (v : Value) : Option GoVal := literalSpec (fun _ => none) .nil v
 
